@@ -1,6 +1,7 @@
 package main
 
 import (
+	"strings"
 	"bytes"
 	"context"
 	"fmt"
@@ -104,11 +105,35 @@ func c26SharedRows(n int) []map[string]any {
 	return rows
 }
 
-func c26Case(n int, rate float64, producer string, shared ...bool) CaseResult {
-	var res CaseResult
+func c26Case(n int, rate float64, producer string, shared ...bool) (res CaseResult) {
 	cfg := quietConfig()
 	cfg.RowDataCompression = bs.CompressionNone
 	cfg.BloomFalsePositiveRate = rate
+	if strings.HasSuffix(producer, "-parts") {
+		// three partitions of unequal size with disjoint entries: one flush writes one file with
+		// three blocks, whose file-level filters hold the union
+		producer = strings.TrimSuffix(producer, "-parts")
+		cfg.PartitionFunc = func(row map[string]any) string {
+			for k := range row {
+				var i int
+				fmt.Sscanf(strings.TrimLeft(k, "fabcdeow"), "%d", &i)
+				if len(row) > 1 {
+					fmt.Sscanf(strings.TrimLeft(fmt.Sprint(row["a"]), "w"), "%d", &i)
+				}
+				switch {
+				case i%10 < 6:
+					return "pa"
+				case i%10 < 9:
+					return "pb"
+				}
+				return "pc"
+			}
+			return ""
+		}
+		defer func() {
+			res.Sample = map[string]any{"n": n, "rate": rate, "producer": producer + "-parts"}
+		}()
+	}
 	w, err := newWorld(cfg, nil)
 	if err != nil {
 		res.Findings = append(res.Findings, fnd("setup", "%v", err))
@@ -241,6 +266,20 @@ func init() {
 					}
 				}
 			}
+			// several partitions in one flush / merge: block filters per partition, file filters for the union
+			for _, n := range []int{30, 1000, 20000} {
+				for _, rate := range []float64{0.1, 0.01, 1e-4} {
+					for _, p := range []string{"flush-parts", "merge-rebuilt-parts"} {
+						for _, sh := range []bool{false, true} {
+							if tier == "quick" && (sh != (p == "merge-rebuilt-parts") || (n == 20000 && rate != 0.01)) {
+								continue
+							}
+							n, rate, p, sh := n, rate, p, sh
+							cs = append(cs, Case{ID: fmt.Sprintf("parts/n%d/p%g/%s/shared_%v", n, rate, p, sh), Run: func() CaseResult { return c26Case(n, rate, p, sh) }})
+						}
+					}
+				}
+			}
 			for _, n := range ns {
 				for _, rate := range []float64{0.5, 0.1, 0.01, 1e-3, 1e-4} {
 					for _, p := range []string{"flush", "merge-rebuilt", "merge-copied"} {
@@ -254,6 +293,6 @@ func init() {
 			}
 			return cs
 		},
-		Rule: "row shapes: one field and token per row (all three entry kinds have n distinct entries) and a shared vocabulary (4 fields, n tokens, 4n field:token pairs); rates from 0.5 down to 1e-12; grid: distinct entries n x rate x producer (flush, merge-rebuilt block, verbatim-copied block) and file level; per filter: (m,k) must equal the textbook optimum for the reference's distinct count, and the measured rate over a fixed universe of 200000 absent entries must stay within 3 x rate + 5 sigma (the repository's own documented tolerance); quick adds three volume cases (1e5 entries at 1e-4 and 1e-3, 1.5e5 at 0.01), thorough the full grid up to 3e5; deterministic given the tree",
+		Rule: "row shapes: one field and token per row (all three entry kinds have n distinct entries) and a shared vocabulary (4 fields, n tokens, 4n field:token pairs); rates from 0.5 down to 1e-12; grid: distinct entries n x rate x producer (flush, merge-rebuilt block, verbatim-copied block) and file level, single-partition and three-partition flushes and merges; per filter: (m,k) must equal the textbook optimum for the reference's distinct count, and the measured rate over a fixed universe of 200000 absent entries must stay within 3 x rate + 5 sigma (the repository's own documented tolerance); quick adds three volume cases (1e5 entries at 1e-4 and 1e-3, 1.5e5 at 0.01), thorough the full grid up to 3e5; deterministic given the tree",
 	}
 }
